@@ -38,7 +38,7 @@ INT_DTYPES = ['uint8', 'int8', 'uint16', 'int16', 'uint32', 'int32', 'uint64', '
 
 def plan(tier, seed):
     n = 12 if tier == 'quick' else 16
-    per = 120 if tier == 'quick' else 1500
+    per = 600 if tier == 'quick' else 20000
     return [{'n': per, 'sub': i} for i in range(n)] + [{'table': True}]
 
 
